@@ -66,7 +66,7 @@ pub fn gen(m: Mode, tier: &str, seed: u64, idx: u64, base: u64) -> Spec {
     let mut rng = Rng::new(seed);
     let mut world = if m == Mode::C18 && rng.coin(35) {
         wgen::gen_zoo(&mut rng)
-    } else if rng.coin(30) {
+    } else if rng.coin(if m == Mode::C13 { 42 } else { 30 }) {
         wgen::gen_world(&mut rng, wgen::Profile::Enum)
     } else {
         pick_world(&mut rng, base, idx, 50, wgen::Profile::Any)
